@@ -7,7 +7,7 @@ import (
 	"go/token"
 	"math"
 
-	"golang.org/x/tools/go/ssa"
+	"gclverify/xt/ssa"
 )
 
 type Rel struct {
